@@ -511,11 +511,16 @@ def _mk_resync(args):
     out = []
     for k in range(n):
         cfg = CFGS[k % 4]
-        kind = NOISE_KINDS[(k // 4) % len(NOISE_KINDS)]
+        kind = NOISE_KINDS[(k // 4 + seed * 2) % len(NOISE_KINDS)]      # jobs start at different kinds so that a small tier still covers all
         far = (not cfg[0]) and k % 3 == 0  # non-stuffing: make the suffix long enough that frames become required
         plan = resync_plan(rng, cfg, kind, rng.randint(2, 6) if not far else rng.randint(8, 14), big=far)
         data = plan_wire(cfg, plan)
         cuts = chunkings(rng, len(data), ncuts)
+        nl = len(plan[0]["o"])
+        sz = rng.choice([1, 2, 3, 7]) if len(data) - nl < 800 else rng.choice([11, 29])
+        rest = len(data) - nl
+        if nl and rest:
+            cuts.append([nl] + [sz] * (rest // sz) + ([rest % sz] if rest % sz else []))          # noise whole, suffix in small chunks
         out.append(make_trace(cfg, data, cuts, mode="resync", plan=plan, origin="gen:resync:" + kind))
     return out
 
